@@ -131,9 +131,16 @@ generator / iterator / zip object); Boolean computed by the translator from the 
 theorem gen_iterable_arguments : derivativeRoutinesReadIterableArgumentsOnceOrMaterialiseFirst = true := by decide
 
 /-- no derivative routine builds an array whose dtype is taken from the coordinate array and fills it with a computed (possibly
-fractional) value (`np.full_like(x, v)`, `dtype=x.dtype`): on integer coordinates that would truncate the value.  Boolean computed
+fractional) value (`np.full_like(x, v)`, `dtype=x.dtype`) unless the coordinates were made floating point first: on integer
+coordinates that would truncate the value.  Boolean computed
 by the translator from the syntax trees, opaque to Lean -/
 theorem gen_no_coordinate_typed_fill : derRoutinesDoNotFillCoordinateTypedArraysWithComputedValues = true := by decide
+
+/-- every derivative routine that does arithmetic of its own on the coordinates (`x - 1`, `2 - 4 * x`, `1 - usq`, `-x`, the integer
+Hermite recurrence, `cos (m t)`) first re-binds each coordinate parameter to its floating-point copy
+(`x = np.asarray(x, dtype=np.result_type(x, 1.0))`), so nothing is computed in the caller's narrow or unsigned integer type (where
+those expressions overflow or wrap around).  Boolean computed by the translator from the syntax trees, opaque to Lean -/
+theorem gen_float_coordinates_at_entry : derRoutinesComputeOnFloatingPointCopiesOfTheirCoordinates = true := by decide
 
 end Gen
 
